@@ -178,7 +178,13 @@ def check(res):
                  {"program": dprogs[int(m.group(1)) - 1], "output_hex": m.group(3)[:600], "rerun": "echo '<program>' | build/<hash>/plain/print_driver prog"})
         if m.group(4) != "ok":
             viol("enclosure:" + m.group(4)[:30], "printing an enclosure: %s" % m.group(4), {"program": dprogs[int(m.group(1)) - 1]})
-    if len([l for l in p3.stdout.splitlines() if l.startswith("G ")]) != len(progs):
+    for l in p3.stdout.splitlines():
+        mm = re.match(r"P prog(\d+) prog outcome=(signal:\d+|exit:\d+)", l)
+        if mm:
+            viol("terminate:program", "printing a generated unit did not finish: the child process ended with %s (signal 14 = its 20 s alarm, 11 = stack overflow)%s" %
+                 (mm.group(2), "; the remaining programs were skipped after two such prints" if "skipped=" in p3.stdout else ""),
+                 {"program": progs[int(mm.group(1)) - 1][:5000], "rerun": "echo '<program>' | build/<hash>/plain/print_driver prog"})
+    if len([l for l in p3.stdout.splitlines() if l.startswith("G ")]) != len(progs) and "terminate:program" not in keys:
         viol("terminate:nesting", "printing a deeply nested statement did not finish", {"stderr": p3.stderr[-1500:]})
     if not all(status.values()) and not keys:
         res.violation("coq:Properties_C18.v", "proof obligation no longer checks", {"theorem_file": "Properties_C18.v", "error": coq_error_excerpt(out, "Properties_C18.v")}, no_input=True)
